@@ -96,8 +96,9 @@ func init() {
 
 			a.runtime.blocks = t.processedBlocks
 			root := t.Root
-			if t.extends != nil {
-				root = t.extends.Root
+			for t.extends != nil {
+				t = t.extends
+				root = t.Root
 			}
 
 			if a.NumOfArguments() > 1 {
@@ -126,8 +127,9 @@ func init() {
 
 			a.runtime.blocks = t.processedBlocks
 			root := t.Root
-			if t.extends != nil {
-				root = t.extends.Root
+			for t.extends != nil {
+				t = t.extends
+				root = t.Root
 			}
 
 			if a.NumOfArguments() > 1 {
